@@ -17,20 +17,21 @@ TREES = ['scalar', 'vec', 'mat_scalar', 'nested', 'int', 'half', 'tied']
 WEIGHTS = [0.0, 0.5, 1.0, 2.0]
 
 
-def make_tree(kind, k, seed, as_jax):
+def make_tree(kind, k, seed, as_jax, f64=False):
   """Tree number k of the given structure; integer-grid values (exact in float32)."""
   import jax.numpy as jnp
   vals = core.value_pool(seed * 31 + k * 7 + 1, 16, lo=-4, hi=4, denom=1)
   conv = (lambda a: jnp.asarray(a)) if as_jax else (lambda a: a)
-  f = lambda n, shape: conv(np.asarray(vals[:n], np.float32).reshape(shape))
+  dt = np.float64 if f64 else np.float32
+  f = lambda n, shape: conv(np.asarray(vals[:n], dt).reshape(shape))
   if kind == 'scalar':
     return f(1, ())
   if kind == 'vec':
     return {'a': f(3, (3,))}
   if kind == 'mat_scalar':
-    return {'a': f(4, (2, 2)), 'b': conv(np.float32(vals[5]))}
+    return {'a': f(4, (2, 2)), 'b': conv(dt(vals[5]))}
   if kind == 'nested':
-    return {'p': [f(2, (2,)), {'q': f(3, (1, 3))}], 'r': conv(np.asarray(vals[6:8], np.float32))}
+    return {'p': [f(2, (2,)), {'q': f(3, (1, 3))}], 'r': conv(np.asarray(vals[6:8], dt))}
   if kind == 'int':
     return {'a': conv(np.asarray(vals[:3], np.int32)), 'f': f(2, (2,))}
   if kind == 'tied':
@@ -146,7 +147,9 @@ def mean_case(case):
         it, idm = it
         nc = dict(case, order=list(order), fn=fn, it=it, ids=idm)
         mkid = {'distinct': lambda i: b'c%d' % i, 'same': lambda i: b'', 'pairs': lambda i: b'c%d' % (i // 2)}[idm]
-        trees = [make_tree(kind, k, seed, as_jax) for k in range(n)]
+        trees = [make_tree(kind, k, seed, as_jax, bool(case.get('f64'))) for k in range(n)]
+        if case.get('f64'):
+          require(all(np.asarray(l).dtype == np.float64 for t in trees for l in leaves(t)), 'harness: 64-bit mode is not in effect')
         snaps = [snapshot(t) for t in trees]
         # weights may arrive as Python numbers or as (narrow) NumPy / JAX scalars, e.g. taken from a uint8 count array;
         # every weight fits its type, their SUM need not
@@ -184,6 +187,10 @@ def mean_case(case):
         require(jax.tree_util.tree_structure(out) == jax.tree_util.tree_structure(trees[0]),
                 'output tree structure differs', case=nc)
         tols = [_tol(np.asarray(l).dtype) for l in leaves(out)]
+        if case.get('f64'):
+          # 64-bit mode: float64 leaves, arbitrary (non-dyadic) weights, float64 accuracy
+          require(all(np.asarray(l).dtype == np.float64 for l in leaves(out)), fn + ': float64 leaves came back in another dtype', case=nc)
+          tols = [1e-12 for _ in tols]
         for g, r, tl in zip(got, ref, tols):
           require(g.shape == r.shape and bool(np.all(np.isfinite(g))), 'non-finite or mis-shaped mean',
                   r.tolist(), g.tolist(), case=nc)
@@ -374,6 +381,13 @@ TIMEOUTS = {k: 600 for k in SUBS}
 # sub-spaces re-executed under other interpreter configurations (mc.core.CONFIGS): {configuration: {sub-space: stride}}
 # quick tier: every stride-th planned case, thorough tier: all planned cases
 CONFIG_PASSES = {'x64': {'mean': 16, 'clip': 6, 'sum': 6}, 'x64_late': {'mean': 64, 'clip': 24}}
+
+
+def config_cases(cfg, sub, ctx):
+  if cfg in ('x64', 'x64_late') and sub == 'mean':
+    return [{'tree': t, 'weights': ws, 'jax': True, 'seed': ctx.seed, 'all_orders': False, 'f64': True}
+            for t in ('vec', 'nested', 'mat_scalar') for ws in ([0.1, 0.7], [1.0 / 3, 2.0, 0.3], [16777217.0, 3.0], [0.1], [1e-3, 0.0, 0.7, 5.1])]
+  return []
 
 
 def plan(ctx):
